@@ -33,6 +33,7 @@ func rulesC12(c *Ctx) {
 	ruleExactInstanceLookup(c)
 	ruleNarrowingKeys(c)    // an out-of-range label is rejected, not truncated onto an installed key (shared with C01)
 	ruleServerFlushTable(c) // Flush rejects unknown / empty instance names before touching the RIB (shared with C08)
+	ruleStopSignal(c)       // a malformed Get cannot hang the RPC: the handler never waits for the producer before telling it to stop (shared with C10)
 }
 
 // The RPC handlers reject unknown and empty network-instance names by looking
